@@ -552,6 +552,11 @@ def _co_model(env, s, d, top) -> Co:  # noqa: C901, PLR0912
             continue
         if link.kind == "func":
             fco = _co_function(env, s, env.objects[link.name])
+            if (fco.verdict == NO and fco.rule.startswith("link_function: unmatched") and fld.has_default
+                    and policy_allows(env, dst_spec.name, fld.name)):
+                # the documentation does not say whether a link_function whose parameters cannot be matched leaves the
+                # field "unlinked" (then the policy lets it fall back to its default) or is an error
+                fco = Co(UNSPEC, rule="unmatchable link_function on an optional field that may stay unlinked")
             verdicts.append(fco.verdict)
             rules.append(fco.rule)
             plan.append((fld, link, fco.fn))
@@ -607,14 +612,14 @@ def _co_function(env, s, fspec: FuncSpec) -> Co:
             continue
         ptype = env.param_type(name)
         if ptype is None:
-            return Co(NO, rule="link_function parameter without converter parameter")
+            return Co(NO, rule="link_function: unmatched parameter (no converter parameter of that name)")
         co = _co(env, ptype, ts)
         verdicts.append(co.verdict)
         getters.append(("pos", lambda x, ctx, name=name, fn=co.fn: fn(ctx[name], ctx)))
     for name, ts in fspec.kw:
         fld = next((f for f in src_fields if f.name == name), None)
         if fld is None:
-            return Co(NO, rule="link_function keyword-only parameter without model field")
+            return Co(NO, rule="link_function: unmatched keyword-only parameter (no model field of that name)")
         co = _co(env, fld.type, ts, (src_spec.name, name), None)
         verdicts.append(co.verdict)
         getters.append((name, lambda x, ctx, name=name, fn=co.fn: fn(read_field(env, src_spec, x, name), ctx)))
